@@ -145,13 +145,8 @@ def run(ctx):
         si = p.index_where(lambda e: _is_store(e, "self.regions") or _is_store(e, "self.io_regions"))
         if si < 0:
             continue
-        t1 = _test_idx(p, lambda t: "name in self.regions" in t, 0, si)
-        if t1 < 0:
+        if not (P.has_test(p, "name in self.regions.keys()", False, upto=si) and P.has_test(p, "name in self.io_regions.keys()", False, upto=si)):
             bad = p
-        else:
-            txt = norm(p.ev[t1][1])
-            if "self.io_regions" not in txt:
-                bad = p
     ctx.ob("A1", SOC, "SoCBusHandler.add_region", "duplicate-name test dominates the store", bad is None,
            "" if bad is None else f"a store is reachable without the name-uniqueness test over regions and io_regions: {bad.show()[-160:]}", fn)
     bad = None
@@ -283,8 +278,8 @@ def run(ctx):
     ctx.ob("A1", SOC, "SoCLocHandler.add", "locs[name] = n => unique name, unique number, in range or allocated",
            bad is None and nst > 0, "" if (bad is None and nst > 0) else (bad[1] if bad else "no store into self.locs"), fn)
     for tst in ("name in self.locs.keys()", "n in self.locs.values()", "n < 0"):
-        badp = [p for p in paths if any(e[0] == "test" and norm(e[1]) == tst and e[2] for e in p.ev) and p.end != "raise"]
-        # (the first one is also reached via `use_loc_if_exists and name in ...` which is a different test text)
+        # (an existing name is accepted on request: `use_loc_if_exists and name in ...`)
+        badp = [p for p in paths if P.has_test(p, tst, True) and p.end != "raise" and not P.has_test(p, "use_loc_if_exists", True)]
         ctx.ob("A1", SOC, "SoCLocHandler.add", f"`{tst}` raises", not badp,
                "" if not badp else f"test `{tst}` true does not raise", fn)
     loc_bound(ctx, "A3")
